@@ -97,6 +97,18 @@ class Upstream:
                 pass
         self.held = []
 
+    def release(self) -> None:
+        """Drop held connections and stop scripts that are still running (the case is over)."""
+        for w in self.held:
+            try:
+                w.transport.abort()
+            except Exception:
+                pass
+        self.held = []
+        for t in list(self.tasks):
+            if not t.done():
+                t.cancel()
+
     async def quiesce(self) -> None:
         """Wait until every connection handler of the current case has finished (log is then final)."""
         for _ in range(200):
@@ -152,6 +164,8 @@ class Upstream:
             writer.close()
         except (ConnectionError, ssl.SSLError, OSError):
             entry["error"] = "io"
+        except asyncio.CancelledError:
+            writer.transport.abort()
 
     async def stop(self) -> None:
         self.reset()
@@ -226,9 +240,12 @@ class Interposer:
     """Replaces `loop.create_connection` on one loop: every connection attempt is recorded as
     {"host", "port", "server_hostname", "ssl": bool, "written": bytes} and answered with `response`."""
 
-    def __init__(self, loop: asyncio.AbstractEventLoop, response: bytes = b"20 text/plain\r\nok"):
+    def __init__(self, loop: asyncio.AbstractEventLoop, response: bytes = b"20 text/plain\r\nok", responder=None):
+        """`responder(record) -> (delay seconds, response bytes)` overrides the canned response: the answer may
+        depend on what the client wrote and arrive later, so that several fetches can be in flight at once."""
         self.loop = loop
         self.response = response
+        self.responder = responder
         self.records: list[dict[str, Any]] = []
         self._orig = loop.create_connection
         loop.create_connection = self._create_connection  # type: ignore[method-assign]
@@ -243,12 +260,20 @@ class Interposer:
         tr = _RecTransport(rec)
         proto.connection_made(tr)
 
+        delay, response = (0.0, self.response) if self.responder is None else self.responder(rec)
+
         def play():
-            if self.response:
-                proto.data_received(self.response)
+            if tr.is_closing():
+                proto.connection_lost(None)
+                return
+            if response:
+                proto.data_received(response)
             proto.connection_lost(None)
 
-        self.loop.call_soon(play)
+        if delay > 0:
+            self.loop.call_later(delay, play)
+        else:
+            self.loop.call_soon(play)
         return tr, proto
 
 
